@@ -12,6 +12,9 @@ package main
 //   late     (S)    a query that fails after streaming started (a later data object of the pool is
 //                   truncated on disk) through the real service, every response format, ctrl on
 //                   and off: the client must learn about the error.
+//   bigload  (S)    a load body beyond the client's 16 MiB replay buffer, directly and through the
+//                   remote handle (io.Pipe, irregular read sizes): count/sum/min/max and a multiset
+//                   hash of the pool must agree.
 //   framing  (T2)   api/queryio.Writer + the client-side decode vs the Lean model of the framing.
 
 import (
@@ -591,6 +594,10 @@ func run(c *Ctx) {
 		runAccept(c)
 		lap("service: Accept negotiation")
 	}
+	if c.Want("bigload") {
+		runBigLoad(c)
+		lap("bigload")
+	}
 	if c.Want("late") {
 		runLate(c)
 		lap("late")
@@ -672,6 +679,11 @@ func replay(c *Ctx) {
 	if err := json.Unmarshal(c.Replay, &lc); err == nil && lc.Objects > 0 {
 		c.Eval("replay")
 		runLateCase(c, lc)
+		return
+	}
+	var bc bigCase
+	if err := json.Unmarshal(c.Replay, &bc); err == nil && bc.Records > 0 {
+		runBigCase(c, bc)
 		return
 	}
 	var fc frameCase
